@@ -407,11 +407,45 @@ def pool_random(seed, n, depth=3):
     return [random_type(rng, depth, allow_handle=(i % 4 == 0)) for i in range(n)]
 
 
+def pool_h():
+    """handle-centric pool (C15): handles at every kind of nesting position"""
+    H0 = ('handle', 0, 0, 'u64')
+    H1 = ('handle', 1, 77, 'u32')
+    ts = [H0, H1,
+          ('struct', [H0]), ('struct', [H0, H1, H0]), ('struct', [I('u8'), H0, STR, H1]),
+          ('struct', [('struct', [H0, ('struct', [H1])]), H0]),
+          vec(H0), vec(H1), vec(('struct', [H0, I('u8')])), vec(vec(H0)), arr(2, H0), arr(3, ('opt', H1)),
+          ('pair', H0, H1), ('tuple', [H0, STR, H1]), ('tuple', [vec(H0), ('opt', H0)]),
+          ('opt', H0), ('opt', H1), ('opt', ('struct', [H0, H0])), ('opt', vec(H1)),
+          ('variant', [H0]), ('variant', [I('u8'), H0]), ('variant', [H0, H1, STR]), ('variant', [vec(H0), ('struct', [H1, I('i32')])]),
+          ('map', True, I('u8'), H0), ('map', False, STR, H1), ('map', True, I('i32'), vec(H0)),
+          ('result', 2, 'i32', H0), ('result', 2, 'i32', vec(H1)),
+          ('wrap', H0), vec(('wrap', H1)),
+          ('table', 9, [(1, 'a', H0)]),
+          ('table', 9, [(1, 'a', H0), (2, 'a', H1), (3, 'a', STR)]),
+          ('table', 10, [(1, 'a', vec(H0)), (7, 'd', I('u8')), (2, 'a', ('struct', [H1, H0]))]),
+          ('table', 11, [(5, 'a', ('table', 12, [(1, 'a', H0), (2, 'a', I('u8'))])), (6, 'a', H1)]),
+          vec(('table', 13, [(1, 'a', H0), (2, 'a', ('opt', H1))])),
+          ('struct', [('table', 14, [(1, 'a', ('variant', [H0, STR]))]), H1]),
+          ('table', 15, [(1, 'a', ('map', True, I('u8'), H0)), (2, 'a', ('tuple', [H0, H1]))])]
+    rng = random.Random(20260930)
+    has = lambda t: any_node(t, lambda x: x[0] == 'handle')
+    n = 0
+    while n < 24:
+        t = random_type(rng, 3, allow_handle=True)
+        if has(t):
+            ts.append(t)
+            n += 1
+    return ts
+
+
 if __name__ == '__main__':
     import sys
     name, out = sys.argv[1], sys.argv[2]
     if name == 'a':
         terms = pool_a() + pool_random(20260929, 20)
+    elif name == 'h':
+        terms = pool_h()
     else:
         terms = pool_random(int(sys.argv[3]), int(sys.argv[4]))
     es = emit_header(name, terms, out)
